@@ -172,12 +172,9 @@ func runC08(c *Ctx) {
 						if cutIP(b, k) {
 							return true
 						}
-						for _, m := range g.cut {
-							if EdgeFactMatches(b, k, m) {
-								return true
-							}
-						}
-						return false
+						// one disjunction, so that a predicate helper whose outcome rests on
+						// several of the alternatives is recognised as the guard
+						return EdgeFactMatches(b, k, FOr(g.cut...))
 					}})
 					c.Ob("R8.2", short+"#guard("+g.desc[:min(24, len(g.desc))]+")", ret.Pos(), !reach && len(knobs) > 0, "hold-back only when "+g.desc, ifs(reach || len(knobs) == 0, "the hold-back store is reachable without that condition (or no store found)"))
 				}
